@@ -38,6 +38,20 @@ impl Evaluate for ATag {
     }
 }
 
+/// zero-sized piece type: generating it consumes no input and needs no memory (size_of == 0)
+#[derive(Debug, Clone, Copy, PartialEq)]
+pub struct AZero;
+impl<'a> Arbitrary<'a> for AZero {
+    fn arbitrary(_u: &mut Unstructured<'a>) -> arbitrary::Result<Self> {
+        Ok(AZero)
+    }
+}
+impl Evaluate for AZero {
+    fn evaluate(&self, x: f64) -> f64 {
+        tagval(7, x)
+    }
+}
+
 /// structured input in arbitrary-1.x's wire format for Vec<f64>: (odd flag byte, 8 LE bytes)* even flag byte
 fn encode(ends: &[f64], tail: &[u8], truncate_tail: Option<usize>) -> Vec<u8> {
     let mut v = Vec::new();
@@ -245,7 +259,7 @@ pub fn canaries(m: &mut Mon) {
 }
 
 pub const FLOORS: &[&str] = &[
-    "input:random_bytes", "input:empty_list", "input:one_non_normal_end", "input:descending_ends", "input:thousand_ends",
+    "piece_type:AZero", "input:random_bytes", "input:empty_list", "input:one_non_normal_end", "input:descending_ends", "input:thousand_ends",
     "input:exhausted_in_pieces", "input:duplicate_ends", "input:extreme_ends", "input:truncated_in_ends", "input:well_formed",
     "result:Err:IncorrectFormat", "result:Err:NotEnoughData", "result:Ok:len_1", "result:Ok:len_2-9", "result:Ok:len_100+",
     "evaluated_functions", "result_with_duplicate_ends", "entry:arbitrary_take_rest",
@@ -294,6 +308,7 @@ pub fn run(a: &Args, m: &mut Mon) {
                 _ => go!(Poly8, "Poly8"),
             },
             9 => go!(PolyN, "PolyN"),
+            10 => go!(AZero, "AZero"),
             _ => go!(ATag, "ATag"),
         }
         if k < 6 {
